@@ -13,8 +13,22 @@ from ..evidence import seed
 FILLS = ["a", "þ", "艨", "艩", "\a", "\b", "\x02", "\x03", "\x05", "é中", "&amp;", "\\"]
 
 
+def _fill_effect(text, rt, fill, twin):
+    """how the regenerated text differs for a document whose letters were replaced by an in-band / non-ASCII character"""
+    if rt == text.replace(fill, ""):
+        return "deleted"
+    if twin is not None:
+        b = psweep.analyse(twin, want=("rt",))
+        if not b["exc"] and "rt_exc" not in b and b["rt"] != twin and b["rt"].replace("a", fill) == rt:
+            return "as-ascii-twin"                      # the same (structural) difference as with plain letters: the twin's finding
+    for g in ("\\" + fill, "&amp;", "&", "\ufffd", "?"):
+        if g != fill and rt == text.replace(fill, g):
+            return "replaced-by-%r" % g
+    return None
+
+
 def _one(item):
-    name, text = item
+    name, text = item[0], item[1]
     a = psweep.analyse(text, want=("rt",))
     if a["exc"]:
         return {"skip": "does-not-parse"}
@@ -22,6 +36,10 @@ def _one(item):
         return {"rt_exc": a["rt_exc"]}
     if a["rt"] == text:
         return {"ok": True}
+    if len(item) > 2:
+        eff = _fill_effect(text, a["rt"], item[2], item[3])
+        if eff:
+            return {"ok": False, "fill_effect": eff, "fill": item[2], "regenerated": a["rt"][:400]}
     src, out = text.split("\n"), a["rt"].split("\n")
     k = next((i for i, (x, y) in enumerate(zip(src, out)) if x != y), min(len(src), len(out)))
     return {"ok": False, "line": k + 1, "source_line": src[k] if k < len(src) else None, "regenerated_line": out[k] if k < len(out) else None,
@@ -51,11 +69,12 @@ def run(pid, tier):
             t2 = t.replace("a", f)
             if t2 not in seen:
                 seen.add(t2)
-                docs.append(("", t2))
+                docs.append(("", t2, f, t))
     docs += docspace.other_docs(tier, seed())
     res = impl.pmap(_one, docs, procs=16, chunksize=200)
     cnt = {"identical": 0, "differs": 0, "does-not-parse": 0, "generator-error": 0}
-    for (name, text), o in zip(docs, res):
+    for item, o in zip(docs, res):
+        name, text = item[0], item[1]
         if o.get("skip"):
             cnt["does-not-parse"] += 1
             continue
@@ -67,6 +86,13 @@ def run(pid, tier):
             cnt["identical"] += 1
             continue
         cnt["differs"] += 1
+        if o.get("fill_effect") == "as-ascii-twin":
+            cnt["differs-as-ascii-twin"] = cnt.get("differs-as-ascii-twin", 0) + 1
+            continue
+        if o.get("fill_effect"):
+            # one root cause per (character, effect): the implementation uses the character in-band
+            ctx.violation("differs:special-chars:%r:%s" % (o["fill"], o["fill_effect"]), {"document": text, "regenerated": o["regenerated"]})
+            continue
         where = psweep.shape(o["source_line"]) if o["source_line"] is not None else "past-end"
         nonascii = "" if text.isascii() and not any(ord(c) < 9 for c in text) else ":special-chars"
         ctx.violation("differs%s :: %s :: line %d %s" % (nonascii, name or psweep.doc_shape(text), o["line"], where),
